@@ -1,7 +1,9 @@
-CONSTANTS Ws = {2}  Hs = {2}  SBs = {1}  TABs = {2}  MaxOps = 5
+CONSTANTS Ws = {2}  Hs = {2}  SBs = {1}  TABs = {2}  MaxOps = 4
   Kind = "fb"  Bug = ""  Props = {"C18"}  EmitMode = "none"  EmitMod = 1
 CONSTANT Bytes <- MCBytes
 CONSTANT CurVals <- MCCurVals
+CONSTANT Chunks <- MCChunk1
+CONSTANT Cols <- MCCols1
 INIT Init
 NEXT Next
 INVARIANT NoMismatch
